@@ -85,7 +85,7 @@ ASSUMPTIONS = [
     "a population aggregation targeted by a program is written after the program stage (precedence_aggregation); not generated",
     # closed loop with programs
     "saturation is not modelled (exp is not rational-closed): generated program sets carry no saturation data; a program set with saturation is counted closedprog.unsupported.saturation and not compared",
-    "as closed_corr: no derivative parameters, no skip_function windows, one population type, linear interpolation of databook series, keyrings <= 24 rows",
+    "as closed_corr: linear interpolation of databook series, keyrings <= 24 rows; derivative parameters and skip windows (parameter scenarios) are modelled next to the program layer, but a covout on a derivative parameter (the program overwrites the rate `_dx`) is counted closedprog.unsupported.covout-on-derivative-parameter; programs are generated on one population type",
     "rounding-dependent discontinuities (covout sort by |outcome - baseline| ties, additive sum of coverages within 1e-9 of 1, eligible population that is floating-point dust, and those of closed_corr) are counted ambiguous and not compared",
     "a targeted output-only function parameter or population aggregation does not keep the program value (Params.evalOne: postcompute / aggregation stage); hypotheses of closedprog_sets_targets, evaluated on every covout (counted when not held)",
 ]
